@@ -391,11 +391,18 @@ func gen(c *ex.Ctx) {
 		return
 	}
 	wantBody := []string{"p.emit(C0(0x1B))", "p.mu.Lock()", "p.state = ground", "p.mu.Unlock()"}
-	if strings.Join(timerBody, "|") != strings.Join(wantBody, "|") {
-		c.Fail("anywhere: timer callback body is %q, the model knows %q", timerBody, wantBody)
+	wantBody2 := []string{"p.emit(C0(0x1B))", "p.mu.Lock()", "p.state = ground", "p.ignoreST = false", "p.mu.Unlock()"}
+	clears := ""
+	switch strings.Join(timerBody, "|") {
+	case strings.Join(wantBody, "|"):
+		clears = "false"
+	case strings.Join(wantBody2, "|"):
+		clears = "true"
+	default:
+		c.Fail("anywhere: timer callback body is %q, the model knows %q (optionally with `p.ignoreST = false` after the state reset)", timerBody, wantBody)
 		return
 	}
-	fmt.Fprintf(&sb, "/-- delay of the Escape-key timer in ms; its callback is `emit(C0 0x1B); lock; state = ground; unlock` (shape checked by the extractor) -/\ndef escDelayMs : Nat := %s\n\n", timerDelay)
+	fmt.Fprintf(&sb, "/-- delay of the Escape-key timer in ms; its callback is `emit(C0 0x1B); lock; state = ground; [ignoreST = false;] unlock` (shape checked by the extractor) -/\ndef escDelayMs : Nat := %s\n/-- the timer callback also resets ignoreST -/\ndef timerClearsIgnoreST : Bool := %s\n\n", timerDelay, clears)
 
 	// facts about csiDispatch: separators, base, digit offset
 	cd := ex.FindFunc(f, "Parser", "csiDispatch")
